@@ -79,8 +79,8 @@ def released(v):
 
 
 def is_cow_clone(v):
-    # the old block's owner is given up by running a handle's destructor (drops == 1), not by a bare decrement
-    return vget(v, "alloc") == 1 and vget(v, "init") == 1 and released(v) == 1 and vget(v, "drops") == 1 and vget(v, "own") == 0 and vget(v, "uclone") >= 1 and vget(v, "inc") == 0
+    # the old block's owner is given up by running a handle's destructor (drops >= 1: an OffsetArc's destructor runs an Arc's), not by a bare decrement
+    return vget(v, "alloc") == 1 and vget(v, "init") == 1 and released(v) == 1 and vget(v, "drops") >= 1 and vget(v, "own") == 0 and vget(v, "uclone") >= 1 and vget(v, "inc") == 0
 
 
 def is_unwrapped(v):
@@ -144,7 +144,7 @@ def check_class(cls, vecs):
     elif cls == "UNWRAP-OR-CLONE":
         for v in vs:
             a = is_unwrapped(v) and vget(v, "uclone") == 0
-            b = vget(v, "uclone") >= 1 and released(v) == 1 and vget(v, "drops") == 1 and vget(v, "own") == -1 and vget(v, "inc") == 0 and vget(v, "alloc") == 0
+            b = vget(v, "uclone") >= 1 and released(v) == 1 and vget(v, "drops") >= 1 and vget(v, "own") == -1 and vget(v, "inc") == 0 and vget(v, "alloc") == 0
             if not (a or b):
                 return "must either move the value out of the solely owned block, or clone it and release one owner by running the handle's destructor (which destroys the value if that owner was the last); a path has %s" % balance.vec_str(v)
         if not any(is_unwrapped(v) for v in vs) or not any(vget(v, "uclone") for v in vs):
@@ -386,7 +386,7 @@ def run(ctx, rep):
     balance.rule_unw(ctx, rep)  # histories include operations that unwind: the count must still equal the owners afterwards
     rule_delta(ctx, rep)
     n = balance.rule_cbzero(ctx, rep)
-    rep.floor("R-CBZERO", 5, "five public callback borrowers (with_raw_offset_arc, ThinArc::with_arc, with_arc_mut, OffsetArc::with_arc, ArcBorrow::with_arc)")
+    rep.floor("R-CBZERO", 2, "public callback borrowers that call their closure themselves (today five: with_raw_offset_arc, ThinArc::with_arc, with_arc_mut, OffsetArc::with_arc, ArcBorrow::with_arc; one may delegate to another)")
     rule_fwd(ctx, rep)
     from . import c07 as _c07
 
